@@ -27,7 +27,8 @@ Fin(e) == AllFin(e.a) /\ AllFin(e.b) /\ IsFin(e.eps) /\ IsFin(e.mr)
 
 (* c11 = TRUE: the departure is a violation of C11's equality clause *)
 Judge(op, ok, c11, why) ==
-  /\ IF ok THEN TRUE ELSE IF c11 THEN PrintT(<<"REJECT", l, why>>) ELSE PrintT(<<"NOTE", l, why>>)
+  /\ IF ok THEN TRUE ELSE IF c11 THEN PrintT(<<"REJECT", l, why>>)
+                          ELSE PrintT(<<"NOTE", "comparison", Rec[l].ty, Rec[l].t, op, Rec[l].r, Rec[l].nr, why>>)
   /\ lastc' = op /\ l' = l + 1 /\ UNCHANGED last
 
 TrEq ==
